@@ -54,6 +54,10 @@ def check_vmerge_rows(ctx: Ctx, limit_envs=24):
         seen.add(key)
         t1, t2 = str(m1), str(m2)
         n += 1
+        # hypothesis vmerge_leaf of C15: the merge returns an atom, the universal or the empty marker, never a compound
+        if type(r).__name__ not in ("MarkerExpression", "AnyMarker", "EmptyMarker"):
+            ctx.finding(f"vmerge-shape|{t1}|{t2}", "_merge_single_markers returned something other than an atom, the universal or the empty marker (hypothesis vmerge_leaf of C15 fails on the code)",
+                        {"a": t1, "b": t2, "is_and": kind}, "MarkerExpression | AnyMarker | EmptyMarker", {"result": str(r), "type": type(r).__name__})
         # hypothesis vmerge_names of C12: a merged version atom mentions only the variables of the two atoms
         extra_vars = mg.variables(r) - {m1.name, m2.name}
         if extra_vars:
